@@ -26,6 +26,9 @@ ASSUMPTIONS = ["vectors and matrix rows are only ever replaced (copying *_SET ar
 LOWER = "nsl/passes/LowerToIR.py"
 
 
+_IN_C12 = [False]
+
+
 def _own_write_only(cls, recv) -> bool:
     """`self.<f>...` where <f> is bound in __init__ to a fresh container of this object and is never *consulted*: every
     read of it is the receiver of a write to it (`self.f[k] += 1`, `self.f.append(x)`) or the body of a pure accessor
@@ -370,13 +373,35 @@ def run(model, col, tier):
     from . import c02
 
     sub = Collector("C02")
-    c02.run(model, sub, "quick")
+    c02.run(model, sub, "quick", share=False)
     for ob in sub.obligations:
         if ob.rule in ("R02.7", "R02.2"):
             # R02.2: the pass removes only the forwarded load, never the store - a store to a global is an assignment later
             # invocations (and GetGlobal) observe
             ob.rule = "R15.6"
             col.obligations.append(ob)
+    # a name that denotes a global in a function body is lowered to accesses of that global, on every statement of the body:
+    # no parameter or local may share a global's name, and lowering looks a name up in per-function maps that are re-created
+    # for every function (= R12.1 the scopes, R12.4 the lookup map) - otherwise an assignment "to the global" is a store to a
+    # local that was never popped, and the global keeps its old value
+    from . import c12 as _c12
+
+    sub = Collector("C12")
+    if not _IN_C12[0]:
+        # (C12's rule set reaches C15 again through C11 -> C14 -> C02: the nested run does not share a second time)
+        _IN_C12[0] = True
+        try:
+            _c12.run(model, sub, "quick")
+        finally:
+            _IN_C12[0] = False
+        n12 = 0
+        for ob in sub.obligations:
+            if ob.rule in ("R12.1", "R12.4"):
+                ob.detail = f"[{ob.rule}] " + (ob.detail or "")
+                ob.rule = "R15.3"
+                col.obligations.append(ob)
+                n12 += 1
+        col.floor("R15.3", "name-binding obligations shared with C12", n12, 10)
     # ---------------- R15.7 the program's globals are those of all its modules; a function body is its own statements ----
     from . import c16
 
